@@ -38,6 +38,11 @@ def _batch(spec, samples=None):
         x_, k_, rho_ = spec["_arrays"]
         gen = mudslide.TrajGenConst(x_, k_, rho_, seed=spec["seed"])
         kw["state0"] = 0
+    elif spec.get("gen") == "normal":
+        # normally distributed initial conditions (the `--ksampling normal` path): trajectory i and its random stream must not
+        # depend on how many are asked for
+        gen = mudslide.TrajGenNormal(np.array([float(spec["x0"])]), np.array([float(spec["k"])]), 0, sigma=1.0, seed=spec["seed"],
+                                     seed_traj=int(spec["seed"]) + 5)
     else:
         gen = mudslide.TrajGenConst(spec["x0"], spec["k"], 0, seed=spec["seed"])
     if spec["cls"] == "EvenSamplingTrajectory":
@@ -411,6 +416,11 @@ def run(ctx):
         elif (i // 5) % 4 in (0, 2) and cls not in ("EvenSamplingTrajectory", "AdiabaticMD"):
             spec.update(array_state=True, samples=max(2, spec["samples"]))
             ctx.count("repro_with_the_callers_own_arrays")
+        if cls in ("TrajectorySH", "TrajectoryCum") and (i // 5) % 4 == 2:
+            spec["gen"] = "normal"
+            spec["samples"] = max(2, spec["samples"])
+            spec.pop("array_state", None)
+            ctx.count("repro_with_normally_distributed_initial_conditions")
         if i % 5 in (0, 1, 2) and (i // 5) % 2 == 1:
             # three-state Subotnik models (their tracked eigenvector phases at the end of a transmitted run differ from eigh's
             # native ones at the start), one model object for everything
